@@ -50,3 +50,19 @@ def term(table, t, env):
 
 def evaluate(table, name, env):
     return term(table, table[name], env)
+
+
+def refs(t):
+    """names whose value a term uses"""
+    op = t["op"]
+    if op in ("v", "dec"):
+        return {t["name"]}
+    if op == "lit":
+        return set()
+    if op == "ns":
+        return refs(t["arg"])
+    if op == "cat":
+        return set().union(*[refs(p) for p in t["parts"]])
+    if op == "th":
+        return refs(t["tag"]) | refs(t["arg"])
+    return refs(t["tag"]) | refs(t["a"]) | refs(t["b"])
